@@ -171,6 +171,46 @@ def rule_reader(ctx):
     ctx.check(okret, "R2", "add_bytes:returns-parsed", "Ok(Some(parsed signature)) on completion", "completion does not return the parsed signature", ctx.loc(b))
 
 
+def rule_prefix_kept(ctx):
+    """R1: the bytes of a record that arrived earlier are still there when the next segment is appended: in add_bytes nothing that empties
+    or shortens the buffer (clear / truncate / drain / reset / a fresh Vec) can be followed by the append of the new segment - the buffer
+    shrinks only on the ways out (record judged: parsed, rejected, not a handshake)"""
+    P = ctx.program
+    b = P.method1("TlsClientHelloReader", "add_bytes")
+    S = T.Slicer(b, P)
+    appends, shrinks = set(), {}
+    for blk, t in b.calls():
+        nm = callee_of(t).rsplit("::", 1)[-1]
+        if not t.get("args"):
+            continue
+        a0 = S.operand(t["args"][0], blk, len(b.blocks[blk]["s"]))
+        on_buffer = any(x[0] == "field" and x[2] == "buffer" for x in T.walk(a0))
+        if nm in ("extend_from_slice", "extend", "append", "push") and on_buffer:
+            appends.add(blk)
+        if (nm in ("clear", "truncate", "drain", "split_off", "retain") and on_buffer) or (nm == "reset" and "TlsClientHelloReader" in callee_of(t)):
+            shrinks[blk] = nm
+    for i, j, st in b.iter_stmts():
+        if st["k"] == "assign" and any(isinstance(x, dict) and x.get("n") == "buffer" for x in st["p"]["pr"]):
+            shrinks[i] = "assignment"
+    bad = []
+    for sb, nm in sorted(shrinks.items()):
+        seen, todo = set(), list(b.succs(sb))
+        while todo:
+            x = todo.pop()
+            if x in seen:
+                continue
+            seen.add(x)
+            if x in appends:
+                bad.append((sb, nm))
+                break
+            todo.extend(b.succs(x))
+    ctx.check(not bad, "R1", "add_bytes:prefix-kept", "%d places shorten the buffer, none of them ahead of the append of the new segment (%d appends)" % (len(shrinks), len(appends)),
+              "add_bytes can discard buffered bytes (%s) and then append the new segment: the first part of a ClientHello that arrived in an earlier "
+              "segment is lost for inputs the discard condition admits, and the record is never completed" % (sorted(set(x[1] for x in bad)),),
+              ctx.loc(b, bad[0][0]) if bad else None)
+    ctx.floor("R1", "appends of the segment to the reader's buffer", len(appends), 1)
+
+
 def rule_flow(ctx):
     P = ctx.program
     b = P.body("huginn_net_tls::process::process_tcp_packet")
@@ -193,7 +233,9 @@ def rule_flow(ctx):
         keyok += 1 if good else 0
         ctx.check(good, "R3", "process_tcp_packet:%s:key@%d" % (nm, ops), "keyed by (src_ip, dst_ip, src_port, dst_port) of this packet",
                   "flow cache `%s` is keyed by %s" % (nm, T.pp(a[1])[:100]), ctx.loc(b, blk))
-    ctx.floor("R3", "flow cache operations", ops, 6)
+    # (what the property needs is every kind of operation keyed correctly: lookup, admission and removal - how often a removal is
+    # written out, once per arm or once in front of the match, is a matter of style)
+    ctx.floor("R3", "flow cache operations", ops, 5)
     adds = Q.calls(b, RD + "::add_bytes")
     if len(adds) != 1:
         ctx.cannot("R3", "process_tcp_packet:add_bytes", "expected one add_bytes call", ctx.loc(b))
@@ -207,6 +249,7 @@ def rule_flow(ctx):
     removes = [blk for blk, t in Q.calls(b, "::remove") if "TtlCache" in callee_of(t)]
     arms = {}
     else_arms = {}
+    arm_edges = {}          # arm name -> the switch edges that select it (an arm body may be shared: `Ok(None) | Err(_) => ..`)
     # collect arms of the match on add_bytes result (nested Ok/Err then Some/None)
     for blk in sorted(b.reachable):
         be = T.branch_edges(b, S, blk)
@@ -218,8 +261,10 @@ def rule_flow(ctx):
                 # `let Ok(x) = r else { .. }`: the else edge is the one remaining variant
                 if isinstance(lab, tuple) and lab and lab[0] == "else" and len(lab[1]) == 1:
                     else_arms.setdefault(lab[1][0], succ)
+                    arm_edges.setdefault(lab[1][0], set()).add((blk, succ))
                 if isinstance(lab, str):
                     arms[lab] = succ
+                    arm_edges.setdefault(lab, set()).add((blk, succ))
     for k_, v_ in else_arms.items():
         arms.setdefault(k_, v_)
     for arm, need in (("Some", True), ("Err", True), ("None", False)):
@@ -228,12 +273,25 @@ def rule_flow(ctx):
             continue
         succ = arms[arm]
         has = any(C.dominates(b, succ, r) and C.postdominates(b, r, succ) for r in removes)
+        keeps = not any(C.dominates(b, succ, r) for r in removes)
+        if (need and not has) or (not need and keeps):
+            # the removal may be hoisted in front of the match (`if !matches!(outcome, Ok(None)) { remove }; match outcome {..}`): every
+            # feasible path through the arm is read on its own - it passes a removal after add_bytes, or it does not
+            trails, trunc = PA.enumerate_paths(b, 0, 6000)
+            edges_ = arm_edges.get(arm, set())
+            thr = [tr for tr in trails if ablk in tr and any((tr[k_], tr[k_ + 1]) in edges_ for k_ in range(len(tr) - 1))]
+            if thr and not trunc:
+                def _removed(tr):
+                    k0 = tr.index(ablk)
+                    return any(x in removes for x in tr[k0:])
+                has = all(_removed(tr) for tr in thr)
+                keeps = not any(_removed(tr) for tr in thr)
         if need:
             ctx.check(has, "R3", "process_tcp_packet:arm:%s:drops-flow" % arm, "flow removed on every path of the %s arm" % arm,
                       "the %s arm does not remove the flow: %s" % (arm, "a second result could be produced / state is retained after the result" if arm == "Some"
                                                                      else "a failed flow keeps accumulating"), ctx.loc(b, succ))
         else:
-            ctx.check(not any(C.dominates(b, succ, r) for r in removes), "R3", "process_tcp_packet:arm:None:keeps-flow", "incomplete record keeps the flow",
+            ctx.check(keeps, "R3", "process_tcp_packet:arm:None:keeps-flow", "incomplete record keeps the flow",
                       "the flow is dropped while the record is still incomplete (segments before completion would be lost)", ctx.loc(b, succ))
     # result only in the Some arm, built from this packet's endpoints
     for (rb, j, term, _c) in TB.return_sites(b, P):
@@ -371,7 +429,7 @@ def rule_flow(ctx):
 def rule_retained(ctx):
     """R3: half-reassembled flows survive until their own result / error / TTL - nothing else clears the flow cache"""
     from . import _workers as W
-    W.state_retained(ctx, ctx.program, "huginn_net_tls", "tls", "R3", 2)
+    W.state_retained(ctx, ctx.program, "huginn_net_tls", "tls", "R3", 1)
 
 
 def rule_segments(ctx):
@@ -416,12 +474,20 @@ def rule_framing(ctx):
     E.link_layer_order(ctx, ctx.program, "R3", ("huginn_net_tls",))
 
 
+def rule_flow_lifetime(ctx):
+    """R3: a tracked flow outlives the gaps between the segments of one ClientHello: whole-second lifetime (shared rule _ttl)"""
+    from . import _ttl
+    _ttl.cache_ttls(ctx, ctx.program, "R3", ("huginn_net_tls",), 1)
+
+
 def run(ctx):
+    rule_flow_lifetime(ctx)
     rule_framing(ctx)
     rule_parallel(ctx)
     rule_dispatch(ctx)
     rule_reset(ctx)
     rule_segments(ctx)
     rule_reader(ctx)
+    rule_prefix_kept(ctx)
     rule_flow(ctx)
     rule_retained(ctx)
